@@ -131,6 +131,8 @@ struct Generator::GeneratorImpl
     std::string generateCode(const AnalyserEquationAstPtr &ast) const;
 
     bool isToBeComputedAgain(const AnalyserEquationPtr &equation) const;
+    bool usesRateOf(const AnalyserEquationAstPtr &ast,
+                    const AnalyserVariablePtr &state) const;
     bool isSomeConstant(const AnalyserEquationPtr &equation,
                         bool includeComputedConstants) const;
 
